@@ -478,11 +478,11 @@ class SymReal(SymNum):
     def __mod__(s, m):
         if isinstance(m, Sym):
             raise Unsupported("symbolic modulus")
-        e = eng()
-        k = e.fresh("modk", "Int")
-        r = s.e - z3.ToReal(k) * lift(float(m))
-        e.solver.add(r >= 0, r < lift(float(m)))
-        return mk(r)
+        # functional encoding x - m*floor(x/m) (Python/numpy semantics for m > 0): equal inputs give equal terms
+        mm = lift(float(m))
+        if float(m) <= 0:
+            raise Unsupported("modulus <= 0")
+        return mk(s.e - mm * z3.ToReal(z3.ToInt(s.e / mm)))
 
     def __float__(self):
         raise Unsupported("float() of a symbolic real (would concretise)")
